@@ -139,7 +139,10 @@ def fresh_replay(path, hashseed="0"):
 
 
 def write_replay(prop, case, violation, digest):
-    out_dir = os.path.join(VERIF, "replays", prop)
+    # replays of runs against a scratch tree (mutants, seeded changes, older commits) are kept
+    # apart from the ones that say something about /repo itself
+    out_dir = os.path.join(VERIF, "replays", prop) if boot.REPO == "/repo" else \
+        os.path.join(VERIF, ".scratch", "replays", prop)
     os.makedirs(out_dir, exist_ok=True)
     doc = copy.deepcopy(case)
     doc["violation"] = violation
